@@ -127,6 +127,11 @@ class C05(Prop):
                 c_['priority'] = p_
             for c_ in own[7:]:
                 scn['controls'].remove(c_)
+        # a leaking tank: its net inflow (which decides when a level threshold is crossed) then differs from the flow of its links
+        if tanks and rng.chance(0.2):
+            tk = rng.pick(tanks)
+            scn['leaks'].append({'node': tk['id'], 'area': rng.logu(2e-4, 4e-3, 4), 'cd': rng.pick([0.75, 0.6]), 'start': 0 if rng.chance(0.6) else int(hyd * rng.irange(1, 3)),
+                                 'end': None, 'removed': False})
         # unrelated timed events on links that no conditional control commands (interleaving diversity only)
         commanded = set(c['then'][0]['link'] for c in scn['controls'])
         free = [l for l in gen.plain_pipes(scn) if l['id'] not in commanded]
